@@ -1,7 +1,8 @@
 """C01 — all writable filesystems implement one reference semantics.
 
 Theorems: lean/FsProofs/C01.lean (Ref preserves well-formedness; histories compose);
-lean/FsProofs/MemRefines.lean, lean/FsProofs/OsRefines.lean (MemoryFS / OSFS as coded refine Ref).
+lean/FsProofs/MemRefines.lean, lean/FsProofs/OsRefines.lean (MemoryFS / OSFS as coded refine Ref),
+lean/FsProofs/FtpRefines.lean (FTPFS as coded, over any conforming FTP server, refines Ref).
 Correspondence = the property's quantifier on the real code: every backend is compared,
 step by step from identical pre-states, with Ref.step on verdict, value and resulting tree.
 """
@@ -15,9 +16,10 @@ from props import _osexact as X
 from props import _handles as HD
 from props import _ftp as F
 from props import _multiexact as MX
+from props import _ftpexact as FX
 
 EXTRA_PROOF_MODULES = ("FsProofs.MemRefines", "FsProofs.WrapRefines", "FsProofs.OsRefines", "FsProofs.HandleLaws",
-                       "FsProofs.MultiRefines")
+                       "FsProofs.MultiRefines", "FsProofs.FtpRefines")
 
 QUERY_ON_INVALID_OK = {"exists", "isdir", "isfile"}
 
@@ -152,6 +154,12 @@ def run(rep, tier, seed, deep=False):
             # open FTPFS finding; every step also cross-checked against the server's directory seen through the OS
             fsteps = F.run_ref_level(rep, drv, vlib.rng_for(seed, "c01-ftp"), judge, "C01", 60 * (3 if deep else 1), 15, 1200)
             rep.programs += len(set(s.hist_id for s in fsteps))
+            # FTPFS is tied, *exactly*, to FsModel.Ftp (fs/ftpfs.py as programs over FTP commands) run against the
+            # modelled server FsModel.FtpServer (`ftp.step`: error class, value, resulting server tree), and the
+            # server model itself is compared with the real pyftpdlib server on a raw-command corpus
+            # (FsProofs/FtpRefines.lean proves that this model refines Ref over every conforming server)
+            xsteps = FX.run_ftp_exact(rep, fsteps, drv, judge)
+            rep.programs += len(set(s.hist_id for s in xsteps))
         rep.sample({"backend": steps[0].kind, "op": H.op_json(steps[0].op), "impl": list(steps[0].impl[:2])})
         for s in steps[1::max(1, len(steps) // 5)][:5]:
             rep.sample({"backend": s.kind, "pre": [e[:2] for e in s.pre][:6], "op": H.op_json(s.op), "impl": list(s.impl[:2])})
@@ -176,6 +184,8 @@ def replay(rep, case):
         return X.replay(rep, case)
     if HD.is_mine(case):
         return HD.replay(rep, case)
+    if FX.is_mine(case):
+        return FX.replay(rep, case)
     kind, pre, op = H.case_to_step(case["case"])
     op = H.fix_op_bytes(op)
     if kind in H.FTP_KINDS:
